@@ -32,7 +32,56 @@ def run_tree(prop):
     return run
 
 
+def run_c17(ctx):
+    d = os.path.join(ctx.run_dir, "c17")
+    os.makedirs(d, exist_ok=True)
+    bins = {}
+    failed = []
+    for cfg in ["pm", "full", "optimal", "arkzkey", "stateless"]:
+        try:
+            bins[cfg] = ctx.build(cfg)
+        except BuildFailed as e:
+            failed.append(cfg)
+            ctx.add_result({"_step": "build-" + cfg, "evaluations": 1, "strata_all": ["build|%s|failed" % cfg],
+                            "violations": [{"sig": "build:%s:does-not-compile" % cfg, "count": 1,
+                                            "details": [{"config": cfg, "compiler_output_tail": e.log[-3000:]}]}]})
+        else:
+            ctx.add_result({"_step": "build-" + cfg, "evaluations": 1, "strata_all": ["build|%s|ok" % cfg], "violations": []})
+    ctx.extra["configs_built"] = sorted(bins.keys())
+    ctx.extra["configs_failed_to_build"] = failed
+    if "arkzkey" in bins:
+        ctx.run_vh(bins["arkzkey"], "C17", ["--phase", "keys"], tag="keys-arkzkey")
+    for cfg, b in bins.items():
+        ctx.run_vh(b, "C17", ["--phase", "emit", "--dir", d], tag="emit-" + cfg)
+    for cfg, b in bins.items():
+        ctx.run_vh(b, "C17", ["--phase", "verify", "--dir", d], tag="verify-" + cfg)
+    # transcripts must be byte-identical between builds
+    ts = {}
+    for cfg in bins:
+        f = os.path.join(d, "transcript-%s.txt" % cfg)
+        if os.path.exists(f):
+            ts[cfg] = open(f).read()
+    res = {"_step": "transcripts-across-builds", "evaluations": 0, "strata_all": [], "violations": [], "samples": []}
+    names = sorted(ts)
+    for i, a in enumerate(names):
+        for b in names[i + 1:]:
+            res["evaluations"] += 1
+            res["strata_all"].append("transcript-pair|%s|%s" % (a, b))
+            if ts[a] != ts[b]:
+                la, lb = ts[a].splitlines(), ts[b].splitlines()
+                first = next((k for k in range(min(len(la), len(lb))) if la[k] != lb[k]), min(len(la), len(lb)))
+                res["violations"].append({"sig": "transcript:%s-vs-%s:differ" % (a, b), "count": 1,
+                                          "details": [{"first_differing_line": first, a: la[first:first + 1], b: lb[first:first + 1]}]})
+    if len(names) < 2:
+        ctx.inconclusive.append("fewer than two transcripts to compare")
+    ctx.add_result(res)
+
+
 PLANS = {
+    "C16": {"level": "fault_enumeration", "run": simple("C16", env_extra={"RAYON_NUM_THREADS": "2"}, timeout=7200),
+            "min_evaluations": {"quick": 800, "thorough": 10000}, "min_distinct": {"quick": 80, "thorough": 200}},
+    "C17": {"level": "exploration", "run": run_c17, "exhaustive_key": None,
+            "min_evaluations": {"quick": 1000, "thorough": 5000}, "min_distinct": {"quick": 40, "thorough": 100}},
     "C01": {"level": "exploration", "run": simple("C01", timeout=7200),
             "min_evaluations": {"quick": 40, "thorough": 1000}, "min_distinct": {"quick": 40, "thorough": 800}},
     "C02": {"level": "exploration", "run": simple("C02", timeout=7200),
